@@ -67,6 +67,13 @@ where
             o.slice()[..n].fill(T::default());
             o.produce(n, &[]);
             self.current_delay -= n;
+            if self.current_delay > 0 {
+                // The output had no room for the whole delay. The rest of it
+                // has to go out before any input sample: if the downstream
+                // block frees space right now (it runs concurrently under
+                // MTGraph), the copy below would put samples in between.
+                return Ok(BlockRet::Again);
+            }
         }
         {
             let (input, _tags) = self.src.read_buf()?;
